@@ -2,7 +2,7 @@
 # Apply every seeded change under /verif/seeded/<id>/patch.diff to /repo, run the quick check of
 # its property, undo it, and write seeded/RESULTS.md (which check caught which change).
 cd /verif
-out=seeded/RESULTS.md
+out=seeded/RESULTS.md; [ -n "$1" ] && out=.work/RESULTS-$1.md
 echo "# Seeded changes vs checks (bin/run_seeds.sh, quick tier)" > $out
 echo >> $out; echo "| seed | property | outcome | detail |" >> $out; echo "|---|---|---|---|" >> $out
 for d in /verif/seeded/*/; do
